@@ -108,23 +108,30 @@ func c09World(t *testing.T, r *simcore.Run) any {
 	var cliNode *simcore.Node
 	var spawn func(string, func())
 	var segs []int
-	rtr := netip.AddrPortFrom(netip.MustParseAddr("10.0.1.1"), scRouterPort)
+	var rtr netip.AddrPort
 	if overSCION {
+		scDrawFamily(r)
 		sw = newSCIONWorld(r, time.Duration(tp.Range(0, int64(time.Hour), "srvoff")), 1)
 		r.ProcDelayMaxNs = []int64{0, 20000}[tp.Intn(2, "pdelay")]
 		sw.startServers(4, false, 0, prov, false)
 		net, srvHost, cliNode, spawn = sw.net, sw.srv, sw.cli.Node, sw.goSafe
+		rtr = netip.AddrPortFrom(netip.MustParseAddr(scRouterIP(0)), scRouterPort)
 		if tp.Bool(2, 3, "path") {
 			segs = []int{2 + tp.Intn(5, "h")}
 		}
 		r.Probe("transport:scion")
 	} else {
+		ipDrawFamily(r)
 		w = newIPWorld(r, time.Duration(tp.Range(0, int64(time.Hour), "srvoff")), 0)
 		r.ProcDelayMaxNs = []int64{0, 20000}[tp.Intn(2, "pdelay")]
 		w.startListeners(8, prov)
 		net, srvHost, cliNode, spawn = w.net, w.srv, w.cli.Node, w.goSafe
 	}
 	srvAddr := netip.AddrPortFrom(netip.MustParseAddr(ipSrvIP), ipPort)
+	cliIP, atkIP := ipCliIP, ipAtkIP
+	if overSCION {
+		cliIP, atkIP = scCliIP, scAtkIP
+	}
 	// wrap puts an NTP payload on the wire towards the listeners
 	wrap := func(payload []byte, srcIP string, srcPort uint16, note string) *simnet.Datagram {
 		if overSCION {
@@ -235,7 +242,7 @@ func c09World(t *testing.T, r *simcore.Run) any {
 	}
 	// the sender's sockets only collect
 	if !overSCION {
-		if _, err := net.Listen(ipCliIP+":5000", false); err != nil {
+		if _, err := net.Listen(hp(ipCliIP, 5000), false); err != nil {
 			panic(err)
 		}
 	}
@@ -253,15 +260,15 @@ func c09World(t *testing.T, r *simcore.Run) any {
 			if mode == "sampled" && tp.Bool(1, 3, "port") {
 				c.srcPort = uint16(1 + tp.Intn(65535, "sport"))
 			}
-			src := netip.AddrPortFrom(netip.MustParseAddr(ipCliIP), c.srcPort)
-			d := wrap(c.payload, ipCliIP, c.srcPort, "crafted")
+			src := netip.AddrPortFrom(netip.MustParseAddr(cliIP), c.srcPort)
+			d := wrap(c.payload, cliIP, c.srcPort, "crafted")
 			a := &acct{c: c, src: src}
 			byID[d.ID] = a
 			net.Inject(d, 50*time.Microsecond)
 			copies := 1
 			if dupRate > 0 && tp.Bool(dupRate, 1000, "dup?") {
 				// the network duplicates the datagram: each copy gets its own single reply
-				dd := wrap(append([]byte(nil), c.payload...), ipCliIP, c.srcPort, "crafted dup")
+				dd := wrap(append([]byte(nil), c.payload...), cliIP, c.srcPort, "crafted dup")
 				dd.OrigID = d.ID
 				byOrig[dd.ID] = a
 				net.Inject(dd, time.Duration(50+tp.Intn(100, "dupdelay"))*time.Microsecond)
@@ -305,7 +312,7 @@ func c09World(t *testing.T, r *simcore.Run) any {
 				}
 				// anti-reflection: a reply fed back to the listeners (forged source) is not answered
 				if i%8 == 0 {
-					fb := wrap(append([]byte(nil), ntpBytes...), ipAtkIP, 123, "reflected reply")
+					fb := wrap(append([]byte(nil), ntpBytes...), atkIP, 123, "reflected reply")
 					fa := &acct{c: c}
 					byID[fb.ID] = fa
 					net.Inject(fb, 50*time.Microsecond)
